@@ -72,12 +72,19 @@ func c13(e *Env) {
 		}
 		return n
 	}
-	base := backendFrames()
+	_ = backendFrames
+	handshakeStats := func() [3]int {
+		return [3]int{w.Stats["backend.options_on_started_conn"], w.Stats["backend.second_startup"], w.Stats["backend.register"]}
+	}
+	base := handshakeStats()
+	baseAttempts := len(w.AttemptOrder)
 	forwarded := 0
+	sentTokens := map[string]bool{}
 	checkCanary := func() bool {
 		tok := w.NewToken()
 		r := canary.Send("query", tok, world.QueryMsg("SELECT * FROM ks.t WHERE k = '"+tok+"'", primitive.ConsistencyLevelOne), nil)
 		forwarded++
+		sentTokens[tok] = true
 		if !w.RunUntil(func() bool { return len(r.Replies) > 0 }, time.Minute) {
 			if !w.Stopped() {
 				w.Violate("c13-isolation", "canary-not-answered", "the well-behaved client's request got no reply")
@@ -101,6 +108,7 @@ func c13(e *Env) {
 	for k := 0; k < nConns && !w.Stopped(); k++ {
 		h := w.ConnectClient(pi, 4)
 		compression := "" // model: compression in force on this connection
+		var startVer byte  // version of the last successful STARTUP on this connection (0 = none yet)
 		seqLen := 2 + c.Choose("seqlen", 11)
 		for i := 0; i < seqLen && !w.Stopped() && h.Connected(); i++ {
 			// ---- generate one frame
@@ -121,6 +129,15 @@ func c13(e *Env) {
 			}
 			response := c.Choose("dir", 12) == 11
 			op := c.Choose("op", 10)
+			dataTok := ""
+			// (only at a version the backend speaks: v5 below a DSE maximum passes the gate, but no
+			// session can be created for it, and the request legitimately fails)
+			if startVer != 0 && w.Nodes[0].Supports(primitive.ProtocolVersion(startVer)) && c.Choose("data?", 5) == 4 {
+				// an ordinary request between the handshake frames: it must be served under
+				// whatever the successful handshake frames so far have established
+				op, vbyte, response = 9, startVer, false
+				dataTok = w.NewToken()
+			}
 			encV := primitive.ProtocolVersion(vbyte)
 			known := isKnownVersion(vbyte)
 			accepted := known && encV >= 3 && encV <= max
@@ -168,6 +185,11 @@ func c13(e *Env) {
 			default:
 				msg, kind = &message.Options{}, "options"
 			}
+			if dataTok != "" {
+				msg, kind = world.QueryMsg("SELECT * FROM ks.t WHERE k = '"+dataTok+"'", primitive.ConsistencyLevelOne), "data"
+				forwarded++
+				sentTokens[dataTok] = true
+			}
 			stream := int16(i + 1)
 			var raw []byte
 			if msg == nil {
@@ -213,6 +235,8 @@ func c13(e *Env) {
 				expect = "unsupported-error"
 			case kind == "system":
 				expect = "rows"
+			case kind == "data":
+				expect = "data-rows"
 			}
 			if expect == "ready" && kind == "startup" && compName != "" {
 				// from now on the proxy may compress what it sends on this connection
@@ -278,7 +302,11 @@ func c13(e *Env) {
 					return
 				}
 				if kind == "startup" {
-					compression = strings.ToLower(compName)
+					startVer = vbyte
+					if compName != "" || compression == "" {
+						compression = strings.ToLower(compName)
+					}
+					_ = compression
 					if compName != "" {
 						e.Res.Stats["probe.c13.compression_negotiated"]++
 					}
@@ -294,6 +322,13 @@ func c13(e *Env) {
 					w.Violate("c13-reply", "unsupported-opcode-wrong-reply", fmt.Sprintf("%s: expected an ERROR, got %v (closed=%v)", desc, rm, closed))
 					return
 				}
+			case "data-rows":
+				rr, ok := rm.(*message.RowsResult)
+				if !ok || len(rr.Data) != 1 || string(rr.Data[0][0]) != dataTok {
+					w.Violate("c13-data", "request-after-handshake-not-served", fmt.Sprintf("%s: an ordinary request sent after the successful STARTUP on this connection (compression in force %q) expected its row, got %v (closed=%v)", desc, compression, rm, closed))
+					return
+				}
+				e.Res.Stats["probe.c13.data_request_between_handshake_frames"]++
 			case "rows":
 				if _, ok := rm.(*message.RowsResult); !ok {
 					w.Violate("c13-reply", "system-query-wrong-reply", fmt.Sprintf("%s: expected ROWS, got %v (closed=%v)", desc, rm, closed))
@@ -321,11 +356,16 @@ func c13(e *Env) {
 	}
 	w.Quiesce()
 	// nothing but the canary's data requests reached a backend
-	if got := backendFrames() - base; got != forwarded {
-		var extra []string
-		extra = append(extra, w.UnexpectedAtBackend...)
-		w.Violate("c13-forward", "handshake-frame-forwarded", fmt.Sprintf("backends received %d frames since the proxy finished booting, but only %d data requests were sent by the well-behaved client: a frame of the hostile connections was forwarded %v", got, forwarded, extra))
+	now := handshakeStats()
+	if now[0] != base[0] || now[1] != base[1] || now[2] != base[2] || len(w.UnexpectedAtBackend) > 0 {
+		w.Violate("c13-forward", "handshake-frame-forwarded", fmt.Sprintf("since the proxy finished booting, backends received %d OPTIONS on established connections (heartbeats are off), %d second STARTUPs, %d REGISTERs and %v: a handshake frame of a client was forwarded", now[0]-base[0], now[1]-base[1], now[2]-base[2], w.UnexpectedAtBackend))
 		return
+	}
+	for _, a := range w.AttemptOrder[baseAttempts:] {
+		if !sentTokens[a.Token] {
+			w.Violate("c13-forward", "handshake-frame-forwarded", fmt.Sprintf("backend %s received a %s request (token %q) that no client sent as a data request", a.Conn, a.OpCode, a.Token))
+			return
+		}
 	}
 	e.Res.Stats["oracle.c13.frames_checked"] += framesSent
 	e.Res.Nontrivial = true
